@@ -32,22 +32,31 @@ def Node.reprHtml? : Node → Option Str
   | .tobj1 rh _ => rh
   | _ => none
 
+/-- `len(children) == 1 and isinstance(children[0], (str, HTML))`: the single text child, and whether it is `HTML` -/
+def inlineChild? : List Node → Option (Str × Bool)
+  | [.text s] => some (s, false)
+  | [.html s] => some (s, true)
+  | _ => none
+
+/-- what the single-child exit writes between the tags: `str(child)` under script/style,
+    else `_normalize_text(child)` (HTML verbatim, str escaped) -/
+def inlineText (cfg : Cfg) (name : Str) (c : Str × Bool) : Str :=
+  if cfg.noesc.contains name then c.1 else if c.2 then c.1 else escText cfg c.1
+
 mutual
   /-- `Tag.get_html_string(indent, eol)`; `[]` on non-tags (never used there) -/
   def Node.render (cfg : Cfg) : Node → Nat → Str → Str
     | .tag name ws attrs kids, indent, eol =>
       let hd := indentStr indent ++ openTag cfg name attrs
-      match kids.visible with
-      | [] =>
+      if kids.visible.isEmpty then
+        -- `len(children) == 0`: void names self-close, others are enclosed
         if cfg.void.contains name then hd ++ ['/', '>'] else hd ++ '>' :: closeTag name
-      | [.text s] =>
-        if cfg.noesc.contains name then hd ++ '>' :: s ++ closeTag name
-        else hd ++ '>' :: escText cfg s ++ closeTag name
-      | [.html s] => hd ++ '>' :: s ++ closeTag name
-      | _ =>
-        hd ++ '>' :: (if ws then eol else [])
-          ++ kids.renderKids cfg (indent + 1) eol true ws (!cfg.noesc.contains name)
-          ++ (if ws then eol ++ indentStr indent else []) ++ closeTag name
+      else match inlineChild? kids.visible with
+        | some c => hd ++ '>' :: inlineText cfg name c ++ closeTag name
+        | none =>
+          hd ++ '>' :: (if ws then eol else [])
+            ++ kids.renderKids cfg (indent + 1) eol true ws (!cfg.noesc.contains name)
+            ++ (if ws then eol ++ indentStr indent else []) ++ closeTag name
     | _, _, _ => []
   /-- the `for child in self:` loop of TagList.get_html_string -/
   def Nodes.renderKids (cfg : Cfg) : Nodes → Nat → Str → Bool → Bool → Bool → Str
@@ -91,11 +100,10 @@ mutual
       (the child loop only descends through tags that do not take an early exit) -/
   def Node.hasTobj : Node → Bool
     | .tag _ _ _ kids =>
-      match kids.visible with
-      | [] => false
-      | [.text _] => false
-      | [.html _] => false
-      | _ => kids.hasTobjKids
+      if kids.visible.isEmpty then false
+      else match inlineChild? kids.visible with
+        | some _ => false
+        | none => kids.hasTobjKids
     | _ => false
   def Nodes.hasTobjKids : Nodes → Bool
     | .nil => false
